@@ -67,7 +67,9 @@ def jobs(tier):
     q = tier == "quick"
     return [{"K": 8 if q else 9, "noreply": False}, {"K": 7 if q else 8, "noreply": True},
             # the endpoint's connect() may fail before it returns (already-failed Deferred)
-            {"K": 7 if q else 8, "noreply": False, "sync": True}]
+            {"K": 7 if q else 8, "noreply": False, "sync": True},
+            # ... or succeed before it returns (already-connected protocol)
+            {"K": 6 if q else 7, "noreply": False, "sync_accept": True}]
 
 
 class _PassThroughDatetime:
@@ -128,7 +130,9 @@ def scenario(job):
         st = {"closed": False, "fails": 0, "ever_connected": False, "attempts_at_close": None, "sync_budget": 2}
         armed = _FirstN()
         net.sync_refuse = armed
-        ctx.sig("noreply=%s%s" % (job["noreply"], " sync-connect-failures" if job.get("sync") else ""))
+        if job.get("sync_accept"):
+            net.sync_accept = {("h", 9092)}
+        ctx.sig("noreply=%s%s%s" % (job["noreply"], " sync-connect-failures" if job.get("sync") else "", " sync-accept" if job.get("sync_accept") else ""))
 
         def open_tr():
             ts = net.open_transports()
@@ -197,7 +201,7 @@ def scenario(job):
                         r.written += 1
                     if not had_conn:
                         ctx.check(
-                            bool(net.pending_attempts()) or next_timer(clock) is not None,
+                            bool(net.pending_attempts()) or next_timer(clock) is not None or (trn is not None and r.payload in trn.frames()),
                             "reconnect-attempted-when-requests-remain",
                             "request issued while disconnected but no connection attempt follows",
                         )
